@@ -13,6 +13,8 @@ monotonicity of the discrete-log table (C10, `history_monotone`).
 -/
 import ParanoidModel.Props.C03
 import ParanoidModel.Props.C16
+import ParanoidModel.Props.C10
+import ParanoidModel.Props.C02S
 namespace Paranoid.C17
 open Paranoid
 
@@ -82,5 +84,56 @@ theorem gcd_set_function (values values' : List Nat) (other : Option Nat)
     ∃ f : Nat → Nat, batchGCD values other = .ok (values.map f) ∧
       batchGCD values' other = .ok (values'.map f) :=
   C03.same_set_same_function values values' other hpos hset
+
+/-! ### EC keys: the cached discrete-log table (state of the curve singletons) -/
+
+section ec
+open Paranoid.Ec Paranoid.Bsgs WeierstrassCurve
+variable (c : Curve) [Fact (Nat.Prime c.p)]
+
+/-- "anything flagged in a fresh process is also flagged after arbitrary earlier work": after ANY
+sequence of earlier BatchDL / ExtendedBatchDL / BatchDLOfDifferences calls on the same curve
+object, `BatchDL` still does not raise, the table invariant holds, and every reduced point
+`x • G` with `x` below the bound is found. -/
+theorem dl_history_monotone (hv : ValidCurve c) (ops : List Bsgs.Op) (st : EcState)
+    (h : Bsgs.runOps c (StateG.init listImpl) ops = .ok st) (points : List Pt)
+    (hpts : ∀ P ∈ points, onCurve c P = true) (n ts m : Nat) (hts : 1 ≤ ts)
+    (hm : st.tableSize < ts → 1 ≤ m) :
+    ∃ res st', batchDL c st points n ts m = .ok (res, st') ∧ TableIs c st' ∧
+      List.Forall₂ (fun P r => ∀ x : Nat, Reduced c P → x < n → toPoint c P = x • Gp c →
+        ∃ v : Int, r = some v ∧ v • Gp c = toPoint c P) points res :=
+  C10.history_monotone c hv ops st h points hpts n ts m hts hm
+
+end ec
+
+/-! ### ECDSA signature checks -/
+
+section ecdsa
+open Paranoid.EcdsaChecks
+
+/-- the verdict of a signature is a function of (its curve, its own issuer key tuple, the list of
+guesses of its curve group): two runs — different batches, positions, orders, check kinds, cache
+contents, earlier or later in the process — agree on signatures that agree on these three. -/
+theorem sig_verdict_independent
+    (k k' : Kind) (O O' : Nat → GroupOracle) (factory factory' : EcdsaChecks.Factory)
+    (arts arts' : List Sig) (res res' : CheckResult)
+    (hF : FactoryOK factory) (hR : FactoryReduced factory) (hnd : (factory.map Prod.fst).Nodup)
+    (hF' : FactoryOK factory') (hR' : FactoryReduced factory') (hnd' : (factory'.map Prod.fst).Nodup)
+    (h : check k O factory arts = .ok res) (h' : check k' O' factory' arts' = .ok res')
+    (bi bi' : Nat) (s s' : Sig) (hs : arts[bi]? = some s) (hs' : arts'[bi']? = some s')
+    (obj obj' : CurveObj) (hobj : (s.curve, some obj) ∈ factory) (hobj' : (s'.curve, some obj') ∈ factory')
+    (hcurve : obj.curve = obj'.curve) (hkey : s.key = s'.key)
+    (hgl : (O s.curve).guessList = (O' s'.curve).guessList) :
+    verdictOf res.writes bi = verdictOf res'.writes bi' :=
+  C02S.verdict_independent k k' O O' factory factory' arts arts' res res' hF hR hnd hF' hR' hnd'
+    h h' bi bi' s s' hs hs' obj obj' hobj hobj' hcurve hkey hgl
+
+/-- grouping signatures by issuer key is a partition of the batch indices (results are written
+back by index). -/
+theorem issuer_groups_partition (sigs : List Sig) :
+    ((mapIssuerSigIndexes sigs).map Prod.snd).flatten.Perm (List.range sigs.length) :=
+  (C02S.mapIssuer_partition sigs).2.2.2.2
+
+end ecdsa
 
 end Paranoid.C17
